@@ -44,6 +44,14 @@ CHECKS = {
          'spellings) are read by the term reader, read_term_from_chars, number_chars and number_codes; values compared bit-exactly; '
          'every number kind is also printed (number_codes, number_chars, writeq) and read back.',
     note='Trusted: Python float() is correctly rounded. Which syntax_error is raised is not compared; sign of zero not compared.'),
+ 'C13': dict(
+    level='exploration',
+    technique='runtime monitoring: reference standard order (term model) + antisymmetry/transitivity/==-consistency invariants on observed comparisons',
+    text='Generated pairs/triples of terms (all number kinds incl. boxed-small and rationals produced at run time, atoms of every '
+         'storage class, strings vs equal/near-equal explicit lists around cell boundaries, partial lists, compounds differing in '
+         'arity or name, shared variables) are compared by the real engine with compare/3 in both directions and the six @/== '
+         'predicates; results must equal the reference order, agree with each other, and be transitive on triples.',
+    note='Trusted: the order exactly as the statement words it; order of distinct variables and of 0.0 vs -0.0 not predicted.'),
 }
 
 NOT_APPLICABLE_REASON_UNBUILT = ('check designed in DESIGN.md but not built/validated yet in this session; '
